@@ -23,7 +23,10 @@ def drive(sched: Sched, ch: e2.Choices, bound: int, max_steps: int = 4000) -> di
     steps = 0
     schedule: List[str] = []
     while True:
-        en = sorted(sched.enabled(), key=lambda t: t.seq)
+        # default order = virtual-time order (a thread whose wait ends earlier comes first), so the default schedule
+        # is fair in time; every other order is still explored as a deviation
+        en = sorted(sched.enabled(), key=lambda t: (t.deadline if (t.deadline is not None and t.state in ("blocked", "sleeping")
+                                                                  and not (t.wait_event is not None and t.wait_event._flag)) else sched.now, t.seq))
         if not en:
             break
         if steps >= max_steps:
